@@ -166,7 +166,7 @@ def run(c):
     curated += list(picked.values())[:6]
     import itertools
     for walk in itertools.chain(curated, core.random_walks(r.graph, rng, 40 if quick else 800, max_len=40,
-                                                           cover_edges=not quick)):
+                                                           cover_edges=not quick, cover_factor=3)):
         exc = Exception if n % 2 == 0 else D.R.__dict__.get('BaseFaultX', KeyboardInterrupt) if False else Exception
         res = replay_walk(c, walk, wd, exc)
         n += 1
